@@ -335,6 +335,21 @@ func cmdCheck(args []string) int {
 			Failed []string `json:"failed"`
 		}
 		if rerr != nil || json.Unmarshal(b, &co) != nil {
+			if !res.timedOut && strings.Contains(res.out, repoPrefix) && (strings.Contains(res.out, "panic:") || strings.Contains(res.out, "fatal error:")) {
+				// the process died from a panic / fatal error with library frames (e.g. in the background
+				// writer, or a runtime lock error) while running a regression program: a violation on that program
+				file := ""
+				for _, l := range strings.Split(res.out, "\n") {
+					if i := strings.Index(l, "CORPUS-RUNNING file="); i >= 0 {
+						file = strings.TrimSpace(l[i+len("CORPUS-RUNNING file="):])
+					}
+				}
+				if file != "" {
+					fmt.Printf("violation: [process-crash] regression program %s: %s\n", filepath.Base(file), crashSummary(res.out))
+					fmt.Printf("VIOLATION property=%s replay=%s\n", id, file)
+					return 1
+				}
+			}
 			fmt.Printf("INCONCLUSIVE: corpus run did not complete (exit %d)\n%s\n", res.exit, tail(res.out, 40))
 			return 2
 		}
